@@ -62,9 +62,10 @@ ThStrict == ph = 1 => \A p \in Primes : StrictReduced(CellsG(p), p) = AlgReduced
 (* the diagram counts, at every time, the Betti numbers of the sublevel flag complex computed by  *)
 (* the definition (sets of cycles and boundaries)                                                  *)
 ThDefBetti == ph = 1 =>
-  \A s \in W \cup {NEGINF} :
-     LET B == SublevelBetti(VV, G, s)  D == FlagDiagram(VV, G, 2) IN
-     \A k \in DOMAIN B : B[k] = DiagramBetti(D, k, s)
+  LET S == W \cup {NEGINF}
+      B == SublevelBettiTab(VV, G, S)
+      D == FlagDiagram(VV, G, 2)
+  IN  \A s \in S : \A k \in DOMAIN B[s] : B[s][k] = DiagramBetti(D, k, s)
 (* THE STEP OF THE ALGORITHM IS SOUND: delaying an edge over a time span in which it is dominated  *)
 (* (removing it when the span is unbounded) changes no sublevel homology and no diagram            *)
 ThDelay == ph = 1 =>
@@ -73,8 +74,8 @@ ThDelay == ph = 1 =>
      \A x \in LegalDelays :
         LET H == Delay(G, x[1], x[2]) IN SubgraphOK(G, H) /\ ValuesOK(G, H) /\ FlagDiagram(VV, H, p) = D
 ThDelayDef == ph = 1 =>
-  LET B == Tab([s \in W |-> SublevelBetti(VV, G, s)]) IN
-  \A x \in LegalDelays : \A s \in W : SublevelBetti(VV, Delay(G, x[1], x[2]), s) = B[s]
+  LET B == SublevelBettiTab(VV, G, W) IN
+  \A x \in LegalDelays : SublevelBettiTab(VV, Delay(G, x[1], x[2]), W) = B
 (* the diagram does not depend on the prime on these small flag complexes *)
 ThNoTorsion == ph = 1 => \A p, r \in Primes : FlagDiagram(VV, G, p) = FlagDiagram(VV, G, r)
 =============================================================================
